@@ -27,7 +27,7 @@ structure Stages (fs : Files) (lines : List Str) (a : Assembly) where
   htranslate : translateAll ss1 = some ss2
   hpcr : pcrLoop (ss2.length + 1) ss2 = .ok ss3
   haddr : assignAddrs ss3 0 = .ok ss4
-  hfix : fixAll ss4 0 ss4 = .ok a.stmts
+  hfix : fixAllL t ss4 = .ok a.stmts
   heval : evalSyms a.stmts t t = .ok t1
   hfinal : finalSymTab a.stmts t1 = .ok a.symtab
   /-- an ORG comes before the first label and the first byte (batch 5, fix for finding B1) -/
@@ -65,7 +65,7 @@ theorem assemble_stages {fs : Files} {lines : List Str} {a : Assembly} (h : asse
               cases h6 : assignAddrs ss3 0 with
               | ok ss4 =>
                 rw [h6] at h; dsimp only at h
-                cases h7 : fixAll ss4 0 ss4 with
+                cases h7 : fixAllL t ss4 with
                 | ok ss5 =>
                   rw [h7] at h; dsimp only at h
                   cases h9 : evalSyms ss5 t t with
@@ -100,8 +100,21 @@ theorem fixAll_pw {ss l l' : List Stmt} {i : Nat} (h : fixAll ss i l = .ok l') :
   rw [hs'] at h1; cases h1
   exact fixFit_same h2
 
+/-- (batch 8) `evalLists` changes at most `pkg.additional` -/
+theorem evalLists_pw {t : SymTab} {ss l l' : List Stmt} (h : evalLists t ss l = .ok l') : PW SameButAdditional l l' :=
+  ⟨evalLists_length h, fun _ _ _ hs hs' => evalLists_same h hs hs'⟩
+
+/-- (batch 8) `fixAll` then `evalLists`: at most `pkg.additional` changes -/
+theorem fixAllL_pw {t : SymTab} {l l' : List Stmt} (h : fixAllL t l = .ok l') : PW SameButAdditional l l' := by
+  obtain ⟨x, h1, h2⟩ := fixAllL_ok.1 h
+  exact (fixAll_pw h1).trans (evalLists_pw h2) (fun _ _ _ => SameButAdditional.trans)
+
 namespace Stages
 variable {fs : Files} {lines : List Str} {a : Assembly}
+
+/-- (batch 8) the statements after `fixAll`, before the lists are evaluated -/
+theorem fix_split (st : Stages fs lines a) :
+    ∃ ss5a, fixAll st.ss4 0 st.ss4 = .ok ss5a ∧ evalLists st.t ss5a ss5a = .ok a.stmts := fixAllL_ok.1 st.hfix
 
 theorem keep01 (st : Stages fs lines a) : PW KeepRel st.ss0 st.ss1 :=
   (resolveAll_pw st.hresolve).mono (by rintro s s' ⟨o, _, rfl⟩; exact ⟨rfl, rfl⟩)
@@ -112,7 +125,7 @@ theorem keep23 (st : Stages fs lines a) : PW KeepRel st.ss2 st.ss3 :=
 theorem keep34 (st : Stages fs lines a) : PW KeepRel st.ss3 st.ss4 :=
   (assignAddrs_pw st.haddr).mono (by rintro s s' ⟨_, rfl⟩; exact ⟨rfl, rfl⟩)
 theorem keep45 (st : Stages fs lines a) : PW KeepRel st.ss4 a.stmts :=
-  (fixAll_pw st.hfix).mono (by rintro s s' ⟨_, rfl⟩; exact ⟨rfl, rfl⟩)
+  (fixAllL_pw st.hfix).mono (by rintro s s' ⟨_, rfl⟩; exact ⟨rfl, rfl⟩)
 
 theorem keep25 (st : Stages fs lines a) : PW KeepRel st.ss2 a.stmts :=
   ((st.keep23.trans st.keep34 (fun _ _ _ => KeepRel.trans)).trans st.keep45 (fun _ _ _ => KeepRel.trans))
@@ -461,7 +474,7 @@ theorem Stages.op05 {fs : Files} {lines : List Str} {a : Assembly} (st : Stages 
   have h34 : PW OpRel st.ss3 st.ss4 :=
     (assignAddrs_pw st.haddr).mono (by rintro s s' ⟨_, rfl⟩; exact .of_eq rfl rfl)
   have h45 : PW OpRel st.ss4 a.stmts :=
-    (fixAll_pw st.hfix).mono (by rintro s s' ⟨_, rfl⟩; exact .of_eq rfl rfl)
+    (fixAllL_pw st.hfix).mono (by rintro s s' ⟨_, rfl⟩; exact .of_eq rfl rfl)
   exact (((h01.trans h12 (fun _ _ _ => OpRel.trans)).trans h23 (fun _ _ _ => OpRel.trans)).trans h34
     (fun _ _ _ => OpRel.trans)).trans h45 (fun _ _ _ => OpRel.trans)
 
@@ -472,7 +485,7 @@ variable {fs : Files} {lines : List Str} {a : Assembly}
 
 theorem chained (st : Stages fs lines a) : Chained (st.ss3.map Stmt.preset) a.stmts 0 :=
   (assignAddrs_chained st.haddr).congr
-    ((fixAll_pw st.hfix).mono (by rintro s s' ⟨_, rfl⟩; exact ⟨rfl, rfl⟩))
+    ((fixAllL_pw st.hfix).mono (by rintro s s' ⟨_, rfl⟩; exact ⟨rfl, rfl⟩))
 
 theorem flag_false (st : Stages fs lines a) {j : Nat} {t : Stmt} (ht : a.stmts[j]? = some t)
     (hm : t.row.mnemonic ≠ "ORG") : (st.ss3.map Stmt.preset)[j]? = some false := by
